@@ -63,6 +63,7 @@ def run_c03(res, tier, seed):
     n_files = 250 if tier == "quick" else 4000
     per_file = 6 if tier == "quick" else 12
     kmax = 1 if tier == "quick" else 3
+    sys_budget = 20000 if tier == "quick" else 200000
     cases = []
     for _ in range(n_files):
         items = build_file(rng, rng.randrange(2, 5))
@@ -76,6 +77,24 @@ def run_c03(res, tier, seed):
             new_texts = list(texts)
             new_texts[v] = render_tokens(vt)
             cases.append((items, texts, new_texts, v, log))
+        # systematic single edits on one victim: delete every non-brace token of the body, and replace / insert a
+        # representative of a few non-opening classes at every position
+        if len(cases) < sys_budget:
+            v = rng.choice(victims)
+            toks = gen_gleam.tokens(items[v])
+            lo = toks.index("{") + 1
+            hi = len(toks) - 1 - toks[::-1].index("}")
+            for i in range(lo, hi):
+                if toks[i] in BRACES:
+                    continue
+                edits = [(toks[:i] + toks[i + 1:], f"delete {toks[i]!r} at {i}")]
+                for t in rng.sample(NON_OPENING, 2):
+                    edits.append((toks[:i] + [t] + toks[i + 1:], f"replace {toks[i]!r} by {t!r} at {i}"))
+                    edits.append((toks[:i] + [t] + toks[i:], f"insert {t!r} at {i}"))
+                for vt, lg in edits:
+                    new_texts = list(texts)
+                    new_texts[v] = render_tokens(vt)
+                    cases.append((items, texts, new_texts, v, [lg]))
     reqs = []
     for (items, texts, new_texts, v, log) in cases:
         reqs.append("defs\t" + hexs("\n".join(texts)))
